@@ -161,7 +161,7 @@ def plans(graph, tier):
         yield {(n, par): policy(n, p, par) for n in names for par in (0, 1)}
     for dev in names:
         for p in pols:
-            for q in pols[:3]:
+            for q in (pols[:3] if len(names) <= 3 else pols[:1]):  # 4 nodes: deviations from the all-neighbours policy only
                 if p != q:
                     yield {(n, par): policy(n, p if n == dev else q, par) for n in names for par in (0, 1)}
 
